@@ -103,6 +103,83 @@ def check(program: Program, run: Run) -> None:
     _r6(program, run)
 
 
+
+def _iterated_self_attrs(c) -> set:
+    """attributes of self that a method of this class iterates (for / comprehension / join / *-unpacking)"""
+    out = set()
+    for f in c.methods.values():
+        if not f.params:
+            continue
+        sn = f.params[0]
+        for n in ast.walk(f.node):
+            its = []
+            if isinstance(n, ast.For):
+                its.append(n.iter)
+            elif isinstance(n, (ast.ListComp, ast.SetComp, ast.GeneratorExp, ast.DictComp)):
+                its += [g.iter for g in n.generators]
+            elif isinstance(n, ast.Starred):
+                its.append(n.value)
+            elif isinstance(n, ast.Call) and isinstance(n.func, ast.Attribute) and n.func.attr == "join" and n.args:
+                its.append(n.args[0])
+            for it in its:
+                if isinstance(it, ast.Attribute) and isinstance(it.value, ast.Name) and it.value.id == sn:
+                    out.add(it.attr)
+    return out
+
+
+
+REITERABLE = {"list", "tuple", "set", "frozenset", "dict", "str", "bytes", "Sequence", "Collection", "Mapping", "Sized"}
+
+
+def _reiterable_test(test):
+    """names known to hold a re-iterable container in the body / in the else branch of `if <test>`"""
+    neg = False
+    while isinstance(test, ast.UnaryOp) and isinstance(test.op, ast.Not):
+        test, neg = test.operand, not neg
+    names = set()
+    if (isinstance(test, ast.Call) and isinstance(test.func, ast.Name) and test.func.id == "isinstance" and len(test.args) == 2
+            and isinstance(test.args[0], ast.Name)):
+        spec = test.args[1]
+        elts = spec.elts if isinstance(spec, ast.Tuple) else [spec]
+        kinds = {e.id if isinstance(e, ast.Name) else (e.attr if isinstance(e, ast.Attribute) else None) for e in elts}
+        if kinds and kinds <= REITERABLE:
+            names = {test.args[0].id}
+    return (set(), names) if neg else (names, set())
+
+def _raw_param_stores(f):
+    """(attribute, parameter, node) for every `self.<attribute> = <name>` where <name> may, on some path, still be bound
+    to the value the caller passed for a non-variadic parameter (flow-sensitive over if / loops / try; a re-binding of the
+    name to anything but another such name ends it)"""
+    sn = f.params[0]
+    a = f.node.args
+    raw0 = {x.arg for x in list(a.posonlyargs) + list(a.args)[1:] + list(a.kwonlyargs)}
+
+    def walk(body, raw):
+        res = []
+        for st in body:
+            if isinstance(st, ast.If):
+                # inside `if isinstance(x, (list, tuple, ...))` the value is a re-iterable container
+                safe_body, safe_else = _reiterable_test(st.test)
+                r1, x1 = walk(st.body, set(raw) - safe_body)
+                r2, x2 = walk(st.orelse, set(raw) - safe_else)
+                res += x1 + x2
+                raw = r1 | r2
+            elif isinstance(st, (ast.For, ast.While, ast.With, ast.Try)):
+                for sub in [getattr(st, "body", []), getattr(st, "orelse", []), getattr(st, "finalbody", [])] + [h.body for h in getattr(st, "handlers", [])]:
+                    r, x = walk(sub, set(raw))
+                    res += x
+                    raw |= r
+            elif isinstance(st, (ast.Assign, ast.AnnAssign)) and st.value is not None:
+                targets = st.targets if isinstance(st, ast.Assign) else [st.target]
+                is_raw = isinstance(st.value, ast.Name) and st.value.id in raw
+                for t in targets:
+                    if isinstance(t, ast.Name):
+                        (raw.add if is_raw else raw.discard)(t.id)
+                    elif isinstance(t, ast.Attribute) and isinstance(t.value, ast.Name) and t.value.id == sn and is_raw:
+                        res.append((t.attr, st.value.id, st))
+        return raw, res
+    return walk(f.node.body, set(raw0))[1]
+
 def _r6(program: Program, run: Run) -> None:
     """R6: functools.cached_property / lru_cache / cache on a method of a copied-and-rebuilt object is a render-time write
     in disguise: the first observation stores the value in the instance __dict__ (or in a cache keyed by the instance),
@@ -291,6 +368,30 @@ def _r4(program: Program, run: Run) -> None:
                     run.finding(f"C02/one-shot-iterator-in-state:{f.qualname}:{n.func.id}.{sp[prm]}",
                                 f"{f.qualname} passes {desc} as `{prm}` to {n.func.id}(...), which stores it in self.{sp[prm]}: the first render that iterates it drains it, so every later render of the object "
                                 "(or of a builder sharing it) emits an empty clause", where=f.loc(n), rule="R4", excerpt=f.module.excerpt(n.lineno, 1))
+    # through the public fluent API: a @builder method that stores its (non-variadic) argument as it was given, into an
+    # attribute some method iterates.  The caller may hand in a generator / map / iterator; unless every path re-binds the
+    # name to a materialised container before the store, the first render drains what the object holds
+    nraw = 0
+    for c in program.all_classes():
+        iterated = None
+        for f in c.methods.values():
+            if "builder" not in f.decorators or not f.params:
+                continue
+            for attr, prm, node in _raw_param_stores(f):
+                if iterated is None:
+                    iterated = set()
+                    for k in program.all_classes():
+                        if k.is_subclass_of(c) or c.is_subclass_of(k):
+                            iterated |= _iterated_self_attrs(k)
+                nraw += 1
+                if attr not in iterated:
+                    continue
+                run.ob("C02/R4 object state holds re-iterable containers only", f"{f.qualname}:{attr}", False, detail=f"parameter `{prm}` stored as given", where=f.loc(node))
+                run.finding(f"C02/one-shot-iterator-in-state:{f.qualname}:{attr}",
+                            f"{f.qualname} stores its argument `{prm}` in self.{attr} as it was given on some path (no tuple()/list() around it), and self.{attr} is iterated when the object is "
+                            "rendered: for a generator, map object or iterator the first render drains it, so a second render of the same object (or of a copy sharing it) emits an empty clause",
+                            where=f.loc(node), rule="R4", excerpt=f.module.excerpt(node.lineno, 1))
+    run.analysed["builder_argument_stores_scanned"] = nraw
     run.analysed["constructor_calls_scanned"] = ncalls
     run.ob("C02/R4 object state holds re-iterable containers only", "package", True, detail=f"{nstores} stores to self state and {ncalls} constructor calls scanned; {n_gen} generator functions known", nontrivial=False)
     run.analysed["state_stores_scanned"] = nstores
